@@ -10,6 +10,7 @@
 package c18
 
 import (
+	"errors"
 	"context"
 	"fmt"
 	"io"
@@ -30,6 +31,12 @@ func gen(g *kernel.Rng, seed uint64, tier string) *kernel.Plan {
 	nt := g.Range(2, maxTasks)
 	p.Cfg["tasks"] = int64(nt)
 	p.Cfg["closer"] = int64(g.Intn(2)) // is the writer handed to Switch an io.Closer?
+	p.Cfg["spare"] = int64(g.Intn(2))  // operands passed as a reused slice with spare capacity
+	p.Cfg["reopen"] = int64(g.Pick(3, 1)) // Switch(w); Close(); Switch(w): the same writer installed again
+	p.Cfg["failAt"] = -1              // one Write of the writer fails (the writer works again afterwards)
+	if g.Bool(0.25) {
+		p.Cfg["failAt"] = int64(g.Range(0, 8))
+	}
 	for t := 0; t < nt; t++ {
 		n := g.Range(1, 6)
 		for i := 0; i < n; i++ {
@@ -66,7 +73,11 @@ type wr struct {
 type simWriter struct {
 	s      *kernel.Sched
 	writes []wr
+	failAt int // index of the one Write that fails (-1: none)
+	failed int
 }
+
+var errDiskHiccup = errors.New("sim writer: temporary failure")
 
 //go:norace
 func (w *simWriter) Write(b []byte) (int, error) {
@@ -75,6 +86,12 @@ func (w *simWriter) Write(b []byte) (int, error) {
 		id = t.ID
 	}
 	w.writes = append(w.writes, wr{id, append([]byte(nil), b...)})
+	if w.failAt >= 0 && len(w.writes)-1 == w.failAt {
+		// the line was handed over (that is all the statement asks of the
+		// library); the writer reports a failure for it, once
+		w.failed++
+		return 0, errDiskHiccup
+	}
 	return len(b), nil
 }
 func (w *simWriter) Close() error { return nil }
@@ -135,14 +152,19 @@ func run(p *kernel.Plan) (res *kernel.Result) {
 	}
 	tape := kernel.NewTape(p)
 	s := kernel.NewSched(kernel.ModeFutex, tape, 200000)
-	w := &simWriter{s: s}
+	w := &simWriter{s: s, failAt: int(p.CD("failAt", -1))}
 	logger.Close() // forget any closer remembered from an earlier run in this process
-	if p.C("closer") != 0 {
-		logger.Switch(w)
-	} else {
+	var lw io.Writer = w
+	if p.C("closer") == 0 {
 		// a plain io.Writer: the library then sends colour escapes for warn/error
 		// lines to the process's stdout, never to the current writer
-		logger.Switch(struct{ io.Writer }{w})
+		lw = struct{ io.Writer }{w}
+	}
+	logger.Switch(lw)
+	if p.C("reopen") != 0 {
+		// log rotation: the same writer is installed again after a Close
+		logger.Close()
+		logger.Switch(lw)
 	}
 	installHook(func(point string) {
 		// no preemption while the task holds a mutex of the library: a task
@@ -168,8 +190,12 @@ func run(p *kernel.Plan) (res *kernel.Result) {
 			msgs[i] = msgOf(o.N[3], o.N[4])
 		}
 	}
+	spare := p.C("spare") != 0
 	for t := 0; t < nt; t++ {
 		t := t
+		// the application's operand slices: reused from call to call, with room to grow
+		opnd := make([]interface{}, 1, 8)
+		opndf := make([]interface{}, 2, 8)
 		s.Go("T"+strconv.Itoa(t), func(tk *kernel.Task) {
 			for i, o := range p.Ops {
 				if o.T != t {
@@ -233,7 +259,28 @@ func run(p *kernel.Plan) (res *kernel.Result) {
 						ctx = noID
 					}
 					logs[t] = append(logs[t], lr)
-					if lr.printf == 0 {
+					if lr.printf == 0 && spare {
+						opnd[0] = lr.msg
+						again := 1
+						if o.N[3]%3 == 0 {
+							// the application logs the very same operand slice a second
+							// time, without touching it in between
+							again = 2
+							logs[t] = append(logs[t], lr)
+						}
+						for k := 0; k < again; k++ {
+							switch lr.level {
+							case 0:
+								logger.I(ctx, opnd...)
+							case 1:
+								logger.T(ctx, opnd...)
+							case 2:
+								logger.W(ctx, opnd...)
+							default:
+								logger.E(ctx, opnd...)
+							}
+						}
+					} else if lr.printf == 0 {
 						switch lr.level {
 						case 0:
 							logger.I(ctx, lr.msg)
@@ -243,6 +290,20 @@ func run(p *kernel.Plan) (res *kernel.Result) {
 							logger.W(ctx, lr.msg)
 						default:
 							logger.E(ctx, lr.msg)
+						}
+					} else if spare {
+						lr.msg = msgs[i] + " 7%"
+						logs[t][len(logs[t])-1] = lr
+						opndf[0], opndf[1] = msgs[i], 7
+						switch lr.level {
+						case 0:
+							logger.If(ctx, "%s %d%%", opndf...)
+						case 1:
+							logger.Tf(ctx, "%s %d%%", opndf...)
+						case 2:
+							logger.Wf(ctx, "%s %d%%", opndf...)
+						default:
+							logger.Ef(ctx, "%s %d%%", opndf...)
 						}
 					} else {
 						// Printf-style: the message is an argument and the format
@@ -347,6 +408,7 @@ func run(p *kernel.Plan) (res *kernel.Result) {
 	}
 	// learn every context's id now, sequentially, from the main goroutine
 	w.writes = nil
+	w.failAt = -1
 	for t := 0; t < nt; t++ {
 		for _, c := range ctxs[t] {
 			w.writes = w.writes[:0]
